@@ -145,8 +145,18 @@ let universe : (Stdlib.String.t, n) Hashtbl.t = Hashtbl.create 16
 let oracle_miss = ref 0
 
 let sha (b : bytes) : bytes = bytes_of_ostring (sha256_o (ostring_of_bytes b))
-let sigok (k : string) (m : string) (s : string) : bool =
-  Hashtbl.mem sig_tbl (ostring_of k, ostring_of m, ostring_of s)
+(* the RSA verifier on BYTES is the oracle: its table is filled from the `sig` lines (key, message, signature as
+   base64 text, produced with openssl) decoded by the MODEL's base64 decoder; everything above it - which keys and
+   signatures decode at all - is computed by the model (Signing.check_signature) *)
+let rsa_tbl : (Stdlib.String.t * Stdlib.String.t * Stdlib.String.t, unit) Hashtbl.t = Hashtbl.create 64
+let rsa_oracle (kb : n list) (m : string) (sb : n list) : bool =
+  Hashtbl.mem rsa_tbl (ostring_of_bytes kb, ostring_of m, ostring_of_bytes sb)
+let sigok (k : string) (m : string) (s : string) : bool = check_signature rsa_oracle k m s
+let add_sig (k : Stdlib.String.t) (m : Stdlib.String.t) (s : Stdlib.String.t) =
+  Hashtbl.replace sig_tbl (k, m, s) ();
+  match b64_decode (cstring_of k), b64_decode (cstring_of s) with
+  | Some kb, Some sb -> Hashtbl.replace rsa_tbl (ostring_of_bytes kb, m, ostring_of_bytes sb) ()
+  | _, _ -> ()
 let zdec (b : bytes) : bytes =
   let k = ostring_of_bytes b in
   match Hashtbl.find_opt zdec_tbl k with
@@ -333,7 +343,7 @@ let fault_analysis kind (w : world) (o : op) =
       let subs = all_subs () in
       let k = ref 0 in
       let go_on = ref true in
-      while !go_on && !k < 60 do
+      while !go_on && !k < 90 do
         let reached = ref false in
         List.iter (fun sub ->
             let pl = (match kind with `Crash -> CrashAt (nat_of_int !k, sub) | _ -> FailAt (nat_of_int !k, sub)) in
@@ -348,11 +358,11 @@ let fault_analysis kind (w : world) (o : op) =
                  (* a FailAt plan beyond the last step behaves like NoFault: detect by comparing *)
                  let (_, dn) = run_plan m NoFault w.w_disk in
                  let line = "FAILSET " ^ abs_state d' in
-                 if abs_state dn <> abs_state d' || !k < 40 then reached := true;
+                 if abs_state dn <> abs_state d' || !k < 60 then reached := true;
                  if not (Hashtbl.mem seen line) then (Hashtbl.add seen line (); print_endline line))) subs;
         (match kind with
          | `Crash -> if not !reached then go_on := false
-         | _ -> if !k >= 30 then go_on := false);
+         | _ -> if !k >= 50 then go_on := false);
         incr k
       done
 
@@ -387,7 +397,11 @@ let () =
            Printf.printf "history %s\n" name
        | ["blob"; name; hex] -> Hashtbl.replace blobs name (if hex = "e" then "" else unhex_o hex)
        | ["zdec"; a; b] -> Hashtbl.replace zdec_tbl (blob_tok a) (blob_tok b)
-       | ["sig"; k; m; s] -> Hashtbl.replace sig_tbl (str_tok k, str_tok m, str_tok s) ()
+       | ["sig"; k; m; s] -> add_sig (str_tok k) (str_tok m) (str_tok s)
+       | ["b64"; t] ->
+           (match b64_decode (cstring_of (str_tok t)) with
+            | None -> Printf.printf "b64:%s=err\n" t
+            | Some b -> Printf.printf "b64:%s=ok:%s\n" t (let o = ostring_of_bytes b in if o = "" then "e" else hex_o o))
        | ["base"; b] -> base_blob := blob_tok b
        | ["num"; n] -> ignore (num_tok n)
        | ["trace"; "on"] -> tracing := true
